@@ -408,8 +408,10 @@ LITERAL_TEXTS = {
     'time_of_day_fields': ('  x : TIME_OF_DAY := ', ['TIME_OF_DAY#', ('d',), ('d',), ':', ('d',), ('d',), ':', ('d',), ('d',)], ';\n'),
     'date_and_time_fraction': ('  x : DATE_AND_TIME := ', ['DT#2020-01-01-12:30:15.', ('d',), ('d',)], ';\n'),
     'date_fields': ('  x : DATE := ', ['D#20', ('d',), ('d',), '-', ('d',), ('d',), '-', ('d',), ('d',)], ';\n'),
-    'duration_seconds_fraction': ('  x : TIME := ', ['T#', ('d',), ('d',), '.', ('d',), 's'], ';\n'),
-    'duration_ms': ('  x : TIME := ', ['TIME#', ('d',), ('d',), ('d',), 'ms'], ';\n'),
+    'duration_seconds_fraction': ('  x : TIME := ', ['T#', ('d',), '.', ('d',), 's'], ';\n'),
+    'duration_ms': ('  x : TIME := ', ['TIME#', ('d',), ('d',), 'ms'], ';\n'),
+    'duration_seconds_fraction_long': ('  x : TIME := ', ['T#', ('d',), ('d',), '.', ('d',), 's'], ';\n'),
+    'duration_ms_long': ('  x : TIME := ', ['TIME#', ('d',), ('d',), ('d',), 'ms'], ';\n'),
     'duration_minutes_fraction': ('  x : TIME := ', ['T#', ('d',), '.', ('d',), 'm'], ';\n'),
     'integer_underscore': ('  x : DINT := ', [('d',), '_', ('d',), ('d',)], ';\n'),
     'hex_integer': ('  x : DINT := ', ['16#', ('x',), ('x',)], ';\n'),
@@ -466,12 +468,13 @@ def _k4_job(job):
             t = st.get('text')
             return bytes(x if isinstance(x, int) else m.eval(x, True).as_long() for x in t.b).decode('utf-8', 'replace') if t is not None else None
         def report(kind, what, extra=None):
+            import framework
             s.push()
-            if extra is not None: s.add(extra)
-            t0 = time.time(); r = s.check(); part.solver_s += time.time() - t0; part.queries += 1
+            t0 = time.time(); r, m, eng = framework.check_arith(list(pr.pc) + ([extra] if extra is not None else [])); part.solver_s += time.time() - t0; part.queries += 1
+            if eng not in part.notes: part.notes.append(eng)
             if r == z3.unknown: part.inconc('solver unknown')
             if r == z3.sat:
-                m = s.model(); L = lit_of(m); src = head + pre + L + post + tail
+                L = lit_of(m); src = head + pre + L + post + tail
                 part.add('C10/K4/%s/%s' % (lname, kind), '%s literal %s: %s (rendered as %r)' % (lname.replace('_', ' '), L, what, (rendered(m) or '')[-60:]), {'literal': L, 'source': src, 'rendered': rendered(m)}, ('roundtrip', (src,)))
             s.pop()
         if pr.panic: part.nontrivial += 1; report('panic', 'parsing, rendering or re-parsing panics: ' + pr.panic.msg[:60]); return
@@ -493,8 +496,10 @@ def k4(ctx, kr):
     global _CTX
     _CTX = ctx
     kr.bounds = ('literal spellings with symbolic digits / characters inside `VAR x : T := <literal>; END_VAR` (%s): parse_program -> write_to_string -> parse_program -> Library::eq on the MIR, the lexer lifted on the symbolic source and on the symbolic rendered text; '
-                 'spellings the parser rejects are outside the domain' % ', '.join(LITERAL_TEXTS))
-    for part in par_map(_k4_job, [(l,) for l in LITERAL_TEXTS]): merge_part(kr, part)
+                 'spellings the parser rejects are outside the domain' % ', '.join(l for l in LITERAL_TEXTS if ctx.tier != 'quick' or not (l.endswith('_long') or l == 'duration_minutes_fraction')))
+    THOROUGH_ONLY = {'duration_seconds_fraction_long', 'duration_ms_long', 'duration_minutes_fraction'}
+    fams = [l for l in LITERAL_TEXTS if ctx.tier != 'quick' or l not in THOROUGH_ONLY]
+    for part in par_map(_k4_job, [(l,) for l in fams]): merge_part(kr, part)
     P = ctx.program()
     kr.functions = fn_paths(P, getattr(kr, '_enc', set()))[:120] + ['ironplc-parser::<TokenType as Logos>::lex (lifted)']
     kr.stubs = LC.STUB_NOTES
